@@ -54,6 +54,7 @@ func runSelfTest(c *Ctx, p *propDef, verif string) {
 			text = strings.Replace(text, e[0], e[1], 1)
 		}
 		if stale {
+			fmt.Printf("  selftest: variant %s skipped: its anchor text is not in the current source\n", v.Name)
 			res.Skipped = "anchor text of the variant is not in the current source"
 			c.selfTest = append(c.selfTest, res)
 			continue
